@@ -517,6 +517,14 @@ Definition M_loc_auto (labels : list L) (k : lkey) : res ckey :=
 
 Inductive axkind := KMap | KAuto.
 
+(* Which translation the index of a DERIVED container uses.  Index._extract_iloc builds a new Index from the
+   selected labels -- self.__class__(labels=labels, name=...) -- which always gets a dictionary; only
+   Frame._extract with a null key (None / [:]) hands the source index on unchanged.  Series._extract_iloc
+   always goes through Index.iloc.  (Gen/Gen_c04.v: the constructor call is re-read from the source.) *)
+Definition is_all (k : ckey) : bool := match k with CAll => true | _ => false end.
+Definition derived_kind (is_frame : bool) (k : ckey) (src : axkind) : axkind :=
+  if is_frame && is_all k then src else KMap.
+
 Definition M_loc (kind : axkind) (labels : list L) (k : lkey) : res ckey :=
   match kind with KMap => M_loc_map labels k | KAuto => M_loc_auto labels k end.
 
